@@ -87,7 +87,7 @@ CHECKS = {
          "§3.7, §4 C07"),
  "C03": ("hashsim", "exploration", "deterministic simulation of the diff's random hash seed: RandomState keys owned by the harness (getrandom seam), weak-hash fault (hook H4)",
          "Every generated input list is diffed with each tokenizer/comparison under three RandomState seeds (fresh threads) and once with the word hash truncated to 8 bits, so collisions are common. On every run: concatenated hunk slices reproduce each input, hunk_ranges agree with hunks, matching hunks are equal under the chosen comparison, no hunk is empty on every side, kinds alternate; across runs: identical hunks (the statement's 'same on every run').",
-         "Only the seed/collision dimension is a simulation target; exhaustive input coverage is not claimed (inputs up to ~12 lines).",
+         "Only the seed/collision dimension is a simulation target; exhaustive input coverage is not claimed. Inputs are small edited texts (up to ~12 lines) and, in one run of twelve, two blocks of 60-300 unique lines swapped or interleaved, so that hundreds of shared tokens compete as LCS anchors.",
          "§3.8, §4 C03"),
  "C43": ("configsim", "exploration", "deterministic simulation of copy/move/delete histories and hostile config-id files against the real SecureConfig, crash states of generate_config, seeded RNG",
          "Histories over up to 5 repository directories sharing one per-user config root: create, load, edit through the returned path, recursive copy, move, delete, plant malformed config-id contents (wrong length, non-hex, ../, absolute, trailing newline, non-UTF-8), plant legacy configs, orphan partial config dirs (crash between generate_config's steps). After every load: the config file is <root>/<20 hex>/config.toml; malformed ids are rejected without writing anything; a copy of a repo that still exists where jj last loaded it gets a different id with the original's content and leaves the original's file untouched; an unmoved repo keeps its id and content; two repos loaded where they are never share an id; nothing outside the root changes.",
